@@ -434,6 +434,11 @@ func runC20(t *zsim.Tape, cfg *hlib.Config) *hlib.Outcome {
 		}
 		if !r.Done {
 			// still waiting at the end of the quiet phase
+			if v != nil && v.Finished && quietComplete {
+				if wp := k.Proc(v.Pid); wp != nil && !wp.Killed {
+					return fail("I3:response-never-completed", fmt.Sprintf("request %s was handled by pid %d (finished at %s) but its connection was never closed: the client is still waiting for the end of the response %s later", r.Token, v.Pid, v.End, quietLen))
+				}
+			}
 			if v == nil && quietComplete {
 				return fail("I3:request-never-served", fmt.Sprintf("request %s (sent at %s, conn %d) was never handled although the system was quiet for %s", r.Token, r.SentAt, r.ConnID, quietLen))
 			}
